@@ -386,6 +386,9 @@ def late_specs():
                 steps.append({"op": "data", "d": d, "pk": [{"fr": [["stream", 0, 3 + k % 5, None, False, True, None]], "gap": 0, "pnl": 1}]})
                 if k % 40 == 0:
                     steps.append({"op": "data", "d": 1 - d, "pk": [{"fr": [["stream", 4, 9, None, False, True, None]], "gap": 0, "pnl": 0}]})
+                if k == 300 and i % 2 == 0:
+                    # a key update far into the connection: the packet numbers go on (RFC 9001 6: only the keys change), now above 256
+                    steps.append({"op": "ku", "d": d})
             out.append({"conns": [{"kind": "quic", "seed": 1900 + i, "suite": suite, "steps": steps, "ep": scenario.default_ep(i)}], "tseed": 1 + i,
                         "late": [[a + a // 40 + 1, z + z // 40 + 1] for a, z in lates]})
             i += 1
@@ -421,7 +424,7 @@ def stages(tier):
 
 
 RULE = ("stage late-arrivals-outside-the-window: 330 one-byte-numbered 1-RTT packets of one direction through tlexport.main, two or three of them captured "
-        "more than half a window late (they cannot be opened; A.3 defines their wrong number) - exactly the datagrams an A.3 model over the capture order "
+        "more than half a window late (they cannot be opened; A.3 defines their wrong number), in half of the cases with a key update at packet 300 - exactly the datagrams an A.3 model over the capture order "
         "opens are exported, i.e. a packet that could not be opened leaves the largest-number state alone; stage through-the-stack: real protected packets (2 suites x Retry x skipped packet numbers in every space x encoded lengths) through "
         "tlexport.main, the packet number given to the AEAD compared with the sender's for every packet; stage number-in-the-nonce: "
         "for largest around 2^0..2^61 and all lengths a packet sealed by the reference with nonce = IV xor the A.3 number must be opened by the "
